@@ -172,6 +172,13 @@ namespace GeographicLib {
     }
     static bool LengthOk(int width, int height, unsigned long long filelen)
     { return 4u * unsigned(width) * unsigned(height) == filelen; }
+    // NB1: the upper-cased copy is made, then the raw string is compared
+    static bool IsNan(const std::string& s) {
+      std::string t(s);
+      for (size_t i = s.length(); i--;)
+        t[i] = char(std::toupper(s[i]));
+      return t == "NAN" || s == "NA";
+    }
     // CP1: the northing clause is a copy of the easting clause with one name left behind
     static double Pad(double easting, double northing, double scale) {
       double w = 0;
